@@ -274,6 +274,11 @@ func (s Str) Slice(lo, hi int) Str {
 							break
 						}
 					}
+					if g.A.Kind == "hex" || g.A.Kind == "tok" {
+						// a piece of a token is itself a token, a function of the parent's identity
+						bl.addSeg(Seg{A: &Atom{ID: smt.App(fmt.Sprintf("sub_%s_%d_%d", g.A.Kind, a-off, b-off), smt.Int, g.A.ID), Len: b - a, Kind: g.A.Kind, Info: g.A.Info, Tag: g.A.Tag}})
+						break
+					}
 					panic(abort("unsupported: slicing inside opaque token " + g.A.Kind))
 				}
 				bl.addSeg(g)
